@@ -104,6 +104,17 @@ def check_sweep(project: Project, rep, max_bars=2, sample3=0):
                 continue
             rep.unmodelled("LX-SWEEP", fi, fi.node, f"bars {bars_r}: {msg}"[:200])
             return "unmodelled"
+        # a test that sees None when nothing is left and a birth / death otherwise takes a coordinate 0 for 'nothing left'
+        for rec in getattr(I, "truth_kinds", {}).values():
+            if {"none", "data-number"} <= rec["kinds"]:
+                owner = rec["fi"] or fi
+                import ast as _ast
+                rep.refuted("LX-SWEEP", owner, rec["node"],
+                            f"`{_ast.unparse(rec['node'])}` is truth-tested while it holds None in one case and an end-point of a bar "
+                            f"({sym.show(rec['example'])[:60]}) in another: a bar that is born or dies exactly at 0 is taken for "
+                            f"'nothing left', so the depth is closed early (e.g. bars (-4,-1), (-3,0))",
+                            construct=f"{owner.qualname}: truth test of {_ast.unparse(rec['node'])}")
+                return "refuted"
         # the repeated-bar shortcut ran (a depth was appended as a copy of the previous one): known finding K1
         for ev_ in I.log:
             if ev_["kind"] == "method-call" and ev_.get("target") == "append" and isinstance(ev_.get("recv"), Seq) \
